@@ -95,6 +95,16 @@ func loadSpec() (*Spec, error) {
 	return &s, nil
 }
 
+// evidenceDir is /verif/evidence unless VERIF_EVIDENCE redirects it (used when a
+// check is pointed at a scratch tree with a seeded change, so the committed
+// evidence of the unchanged tree is not overwritten).
+func evidenceDir() string {
+	if d := os.Getenv("VERIF_EVIDENCE"); d != "" {
+		return d
+	}
+	return filepath.Join(verifRoot, "evidence")
+}
+
 func loadKnown() *KnownFile {
 	var k KnownFile
 	data, err := os.ReadFile(filepath.Join(verifRoot, "known_findings.json"))
@@ -426,6 +436,9 @@ func cmdCheck(args []string) int {
 
 	// ---- native replay: violations first, then validation of passing paths ----
 	replayDir := filepath.Join(verifRoot, "replays", prop)
+	if d := os.Getenv("VERIF_REPLAYS"); d != "" {
+		replayDir = filepath.Join(d, prop)
+	}
 	tree := treeID(spec.Repo)
 	writeReplay := func(dir string, c *cand) error {
 		rf := replayFile{Harness: c.run.spec.Func, Group: c.run.spec.Group, Property: prop, Inputs: c.v.Inputs,
@@ -619,7 +632,7 @@ func cmdCheck(args []string) int {
 	// ---- evidence ----
 	ev := buildEvidence(prop, tier, seed, ps, results, funcs, validated, len(validations), cross, solverStats,
 		newViol, knownSeen, mismatches, inconclusive, reachFail, time.Since(t0).Seconds())
-	if err := writeJSON(filepath.Join(verifRoot, "evidence", prop+".json"), ev); err != nil {
+	if err := writeJSON(filepath.Join(evidenceDir(), prop+".json"), ev); err != nil {
 		fmt.Fprintln(os.Stderr, err)
 		return 2
 	}
@@ -908,7 +921,7 @@ func writeEvidenceFailure(prop, tier string, seed int64, ps *PropSpec, reason st
 		"coverage": map[string]any{"explanation": "check was inconclusive: " + reason, "evaluations": 0, "distinct_nontrivial": 0},
 		"assumptions": ps.Assumptions, "wall_s": wall, "violations": 0,
 	}
-	writeJSON(filepath.Join(verifRoot, "evidence", prop+".json"), ev)
+	writeJSON(filepath.Join(evidenceDir(), prop+".json"), ev)
 }
 
 func buildEvidence(prop, tier string, seed int64, ps *PropSpec, results []runResult, funcs map[string]string,
